@@ -44,13 +44,15 @@ class C14(Prop):
         for L in range(1, 301):
             if L % nworkers != index:
                 continue
-            case = {"kind": "pathlen", "len": L, "shape": L % 4, "mode": LG_BOTH if L % 2 else LG_FREE_ONLY}
-            self.last_write(case)
-            try:
-                self.run_pathlen(lib, stats, case)
-            except Violation as v:
-                v.detail = {"case": case}
-                raise
+            for shape in range(4):
+                for mode in (LG_BOTH, LG_FREE_ONLY) if L < 140 else (LG_BOTH,):
+                    case = {"kind": "pathlen", "len": L, "shape": shape, "mode": mode}
+                    self.last_write(case)
+                    try:
+                        self.run_pathlen(lib, stats, case)
+                    except Violation as v:
+                        v.detail = {"case": case}
+                        raise
 
     def run_pathlen(self, lib, stats, case):
         from .c17 import PROP as c17
